@@ -51,10 +51,10 @@ import threading
 from vlib import env
 
 THEOREMS = [
-    "anc_total", "mem_anc", "missing_spec", "missing_closed",
-    "fetch_monotone", "fetch_complete", "fetch_faithful", "fetch_testament",
+    "anc_total", "anc_spec", "missing_spec", "missing_closed",
+    "fetch_monotone", "fetch_complete", "fetch_find_ghosts_complete", "fetch_faithful", "fetch_testament",
     "fetch_texts_faithful", "fetch_idempotent", "fetch_consistent",
-    "fetch_ghost_not_filled_witness", "fetch_find_ghosts_complete",
+    "fetch_ghost_not_filled_witness", "fetch_orphan_inventory_witness",
 ]
 RULE = ("scenario = (seed, source format, target format, transport mode); a generated history of 6-14 revisions "
         "in two home repositories; case = one fetch (source home, target, revision, find_ghosts) performed on the "
@@ -117,7 +117,7 @@ class Rev:
     __slots__ = ("rid", "home", "parents", "ghosts", "actions", "tree", "msg", "ts", "tz", "committer", "props")
 
 
-def gen_history(rng, nrevs, nfiles0):
+def gen_history(rng, nrevs, nfiles0, shape=None):
     """format-independent history script.  tree: path -> (file_id, kind, content)"""
     revs = []
     by_id = {}
@@ -151,7 +151,10 @@ def gen_history(rng, nrevs, nfiles0):
         oh = "B" if rv.home == "A" else "A"
         rv.ghosts = []
         # ---- parents
-        if i == 0:
+        if shape is not None:
+            rv.home, parents, rv.ghosts = shape[i][0], list(shape[i][1]), list(shape[i][2])
+            oh = "B" if rv.home == "A" else "A"
+        elif i == 0:
             parents = []
         else:
             left = heads[rv.home]
@@ -159,11 +162,13 @@ def gen_history(rng, nrevs, nfiles0):
                 left = rng.choice(revs).rid            # branch off an arbitrary revision
             parents = [left]
             r = rng.random()
+            pref = [x for x in ghosty if by_id[x].home == oh and x not in has[rv.home] and x != left]
+            if pref and rng.random() < 0.7:
+                r = 0.0
             if r < 0.45 and len(revs) >= 2:
                 cands = [x.rid for x in revs if x.rid != left]
-                pref = [x for x in ghosty if by_id[x].home == oh and x not in has[rv.home] and x != left]
                 foreign = [x for x in cands if x not in has[rv.home] and x in has[oh]]
-                if pref and rng.random() < 0.8:
+                if pref and (r == 0.0 or rng.random() < 0.8):
                     other = rng.choice(pref)           # merge a revision whose ghost parent this home has
                 elif foreign and rng.random() < 0.5:
                     other = rng.choice(foreign)
@@ -256,6 +261,22 @@ def gen_history(rng, nrevs, nfiles0):
         by_id[rv.rid] = rv
         heads[rv.home] = rv.rid
     return revs
+
+
+def ghost_shape(rng):
+    """a small history in which home A commits a merge of a revision it never fetched (a ghost in A that B has),
+    and B later merges that commit: a target that takes the merge from A first is not closed w.r.t. B"""
+    r = lambda i: b"r%02d" % i  # noqa: E731
+    shape = [("A", [], []),
+             ("A", [r(1)], []),
+             ("B", [r(rng.choice([1, 2]))], []),
+             ("A", [r(2), r(3)], [r(3)]),                       # r04: r03 is a ghost in A
+             ("B", [r(3), r(4)], []),                           # r05: B has both
+             (rng.choice("AB"), [r(5)] if rng.random() < 0.5 else [r(4), r(5)], []),
+             ("B", [r(5)], [])]
+    if rng.random() < 0.5:
+        shape.append(("A", [r(4)], []))
+    return shape
 
 
 # ------------------------------------------------------------------ realisation
@@ -596,7 +617,7 @@ def do_fetch(ctx, W, case, src_name, tgt_name, rev, find_ghosts, mode, batch):
     new = set(post_t["revs"]) - set(pre_t["revs"])
     ctx.count("copied:%d" % min(len(new), 12))
     closed = is_closed(pre_t, pre_s)
-    ctx.count("closed-target" if closed else "target-with-ghost-the-source-has")
+    ctx.count("closed-target" if closed else "target-with-ghost-the-source-has:find_ghosts=%s" % find_ghosts)
     overlap = len(A & set(pre_t["revs"]))
     ghosty = any(p not in pre_s["revs"] for r in A for p in pre_s["revs"][r][0])
     ctx.case(dict(case, n_src=len(pre_s["revs"]), n_tgt=len(pre_t["revs"]), copied=len(new)),
@@ -797,7 +818,8 @@ def pairs_for(ctx):
 
 def run_scenario(ctx, key, stop_at=None):
     """key = (seed, index, fmt_s, fmt_t, mode, big).  Returns the batch of (case, line, impl)."""
-    seed, idx, fmt_s, fmt_t, mode, big = key
+    seed, idx, fmt_s, fmt_t, mode, big = key[:6]
+    kind = key[6] if len(key) > 6 else "random"
     rng = random.Random(repr(("C03", seed, idx, fmt_s, fmt_t, mode)))
     W = World(env.fresh_dir("c03"))
     W.fmt = {"A": fmt_s, "B": fmt_s, "T": fmt_t}
@@ -807,7 +829,11 @@ def run_scenario(ctx, key, stop_at=None):
     try:
         NUL_FAMILY[0] = rng.random() < 0.4
         ctx.count("contents:nul-after-shared-line" if NUL_FAMILY[0] else "contents:binary-without-nul-after-line")
-        revs = gen_history(rng, rng.randint(6, 16 if big else 11), rng.randint(6, 12))
+        if kind == "ghost":
+            shape = ghost_shape(rng)
+            revs = gen_history(rng, len(shape), rng.randint(4, 8), shape=shape)
+        else:
+            revs = gen_history(rng, rng.randint(6, 16 if big else 11), rng.randint(6, 12))
         from breezy.branchbuilder import BranchBuilder
         from breezy.controldir import format_registry
         from breezy import errors, transport as _mod_transport
@@ -853,18 +879,40 @@ def run_scenario(ctx, key, stop_at=None):
         nf = rng.randint(3, 5)
         # revisions built with a parent that is a ghost in their home but present in the other home:
         # fetching them first from their home gives a target that is not closed w.r.t. the other home
-        ghosty = [rv for rv in revs if any(g in allrevs for g in rv.ghosts)]
+        home_revs = {h: set(read_state(W.path(h))["revs"]) for h in "AB"}
+        ghosty = [rv for rv in revs if rv.rid in home_revs[rv.home] and any(
+            g in allrevs and g not in home_revs[rv.home] and g in home_revs["B" if rv.home == "A" else "A"]
+            for g in rv.ghosts)]
         plan = []
-        if ghosty and rng.random() < 0.8:
+        forced_fg = None
+        desc = None
+        if ghosty and (kind == "ghost" or rng.random() < 0.8):
             g = rng.choice(ghosty)
             plan.append((g.home, g.rid))
+            ctx.count("plan:fetch-a-revision-with-a-foreign-ghost-parent-first")
         for j in range(nf):
             src = rng.choice("AAB")
             if plan and j == 0:
                 src, rev = plan[0]
-            elif plan and j == 1 and rng.random() < 0.8 and _descendants_in(W, "B" if plan[0][0] == "A" else "A", plan[0][1]):
+            elif plan and j in (1, 2) and (j == 1 or forced_fg is not None) and \
+                    _descendants_in(W, "B" if plan[0][0] == "A" else "A", plan[0][1]):
+                # a descendant of that revision from the other home (which has the parent the target lacks):
+                # once with find_ghosts=False (the ghost stays), once with True (it must be filled), in either order
                 src = "B" if plan[0][0] == "A" else "A"
-                rev = rng.choice(_descendants_in(W, src, plan[0][1]))
+                ctx.count("plan:then-its-descendant-from-the-other-home")
+                if j == 1:
+                    desc = rng.choice(_descendants_in(W, src, plan[0][1]))
+                    forced_fg = rng.random() < 0.5
+                    rev, fg_now = desc, forced_fg
+                else:
+                    rev, fg_now = desc, not forced_fg
+                    forced_fg = None
+                do_fetch(ctx, W, case_of(src, "T", rev, fg_now, mode), src, "T", rev, fg_now, mode, batch)
+                if (stop_at is not None and n[0] >= stop_at) or W.tainted:
+                    if W.tainted:
+                        ctx.count("scenario-stopped:a-fetch-damaged-its-target")
+                    return batch
+                continue
             else:
                 st = read_state(W.path(src))
                 have = read_state(W.path("T"))["revs"]
@@ -904,6 +952,11 @@ def scenario_keys(ctx):
             i += 1
     # one extra 2a->2a local scenario (largest groups)
     keys.append((ctx.seed, i, "2a", "2a", "local", ctx.thorough()))
+    # small histories built around a ghost that the other home has (targets that are not ancestry-closed)
+    gp = [("2a", "2a"), ("pack-0.92", "pack-0.92"), ("knit", "2a"), ("pack-0.92", "2a"), ("knit", "pack-0.92"), ("1.9-rich-root", "2a")]
+    for j in range(ctx.pick(3, 12)):
+        a, b = gp[(ctx.seed + j) % len(gp)]
+        keys.append((ctx.seed, i + 1 + j, a, b, modes[(j + ctx.seed) % 3], False, "ghost"))
     return keys
 
 
